@@ -124,9 +124,13 @@ theorem local_checked (isInput outs : P → Prop) (W : Work L Z R) (r : Routine)
   unfold checked
   apply local_readSeq isInput outs first _ h1
   intro o1
-  cases W.check r o1 with
+  cases W.check r 0 o1 with
   | error e => trivial
-  | ok u => exact local_readSeq isInput outs second _ h2 (fun o2 => hk _ _)
+  | ok u =>
+    refine local_readSeq isInput outs second _ h2 (fun o2 => ?_)
+    cases W.check r 1 (o1 ++ o2) with
+    | error e => trivial
+    | ok u => exact hk _ _
 
 theorem local_export1 (isInput outs : P → Prop) (W : Work L Z R) (r : Routine) (a : Args P) (obs : List (List L))
     (res : Except Err R) (h1 : ∀ o, a.out1 = some o → outs o) :
